@@ -73,6 +73,19 @@ pub enum Op {
         idx: u8,
         text: u8,
     },
+    /// decimal float write with `max_significant_digits = max` (default break points) into a buffer of
+    /// exactly `buffer_size_const` bytes
+    WFloatDigits {
+        ty: FloatTy,
+        bits: u64,
+        max: u8,
+    },
+    /// parse `PINF_TEXTS[text]` with the parser's short/long infinity strings set to `PINF_POOL[idx]`
+    PInfCustom {
+        ty: FloatTy,
+        idx: u8,
+        text: u8,
+    },
     /// configure NaN string number `idx` of `NAN_POOL`; if the options builder accepts it, NaN must
     /// be written as exactly that string and the bytes must be ASCII
     WNanCustom {
@@ -89,6 +102,21 @@ pub const PNAN_POOL: [&[u8]; 8] = [b"NaN", b"nan", b"nil", b"null", b"NAN", b"nA
 pub const PNAN_TEXTS: [&[u8]; 16] = [
     b"NaN", b"nan", b"nil", b"NIL", b"null", b"Null", b"nAn", b"Nanana", b"nanana", b"n", b"N", b"-nil", b"+null", b"ni", b"nulll",
     b"nanan",
+];
+
+/// valid (inf_string, infinity_string) pairs for the parser (short no longer than long), and texts
+pub const PINF_POOL: [(&[u8], &[u8]); 7] = [
+    (b"inf", b"infinity"),
+    (b"Inf", b"Infinity"),
+    (b"i", b"infinite"),
+    (b"inf", b"ieeeinfinity"),
+    (b"in", b"ix"),
+    (b"infty", b"infty"),
+    (b"INF", b"INFINITE"),
+];
+pub const PINF_TEXTS: [&[u8]; 20] = [
+    b"inf", b"infinity", b"Inf", b"INFINITY", b"i", b"infinite", b"ieeeinfinity", b"IEEEInfinity", b"in", b"ix", b"infty", b"-infty",
+    b"+ieeeinfinity", b"-infinite", b"infinit", b"ieee", b"infx", b"-i", b"inff", b"+in",
 ];
 
 pub const NAN_POOL: [&[u8]; 12] = [
@@ -172,6 +200,12 @@ impl Op {
             Op::PNanCustom {
                 ..
             } => "PNanCustom",
+            Op::WFloatDigits {
+                ..
+            } => "WFloatDigits",
+            Op::PInfCustom {
+                ..
+            } => "PInfCustom",
         }
     }
 
@@ -252,6 +286,16 @@ impl Op {
                 idx,
                 text,
             } => format!("PNanCustom {} {} {}", ty.name(), idx, text),
+            Op::WFloatDigits {
+                ty,
+                bits,
+                max,
+            } => format!("WFloatDigits {} {:x} {}", ty.name(), bits, max),
+            Op::PInfCustom {
+                ty,
+                idx,
+                text,
+            } => format!("PInfCustom {} {} {}", ty.name(), idx, text),
         }
     }
 
@@ -305,6 +349,16 @@ impl Op {
             "WSpecialOff" if f.len() == 3 => Some(Op::WSpecialOff {
                 ty: FloatTy::from_name(f[1])?,
                 which: f[2].parse().ok()?,
+            }),
+            "WFloatDigits" if f.len() == 4 => Some(Op::WFloatDigits {
+                ty: FloatTy::from_name(f[1])?,
+                bits: u64::from_str_radix(f[2], 16).ok()?,
+                max: f[3].parse::<u8>().ok().filter(|m| *m >= 1)?,
+            }),
+            "PInfCustom" if f.len() == 4 => Some(Op::PInfCustom {
+                ty: FloatTy::from_name(f[1])?,
+                idx: f[2].parse::<u8>().ok().filter(|i| (*i as usize) < PINF_POOL.len())?,
+                text: f[3].parse::<u8>().ok().filter(|i| (*i as usize) < PINF_TEXTS.len())?,
             }),
             "PNanCustom" if f.len() == 4 => Some(Op::PNanCustom {
                 ty: FloatTy::from_name(f[1])?,
@@ -398,6 +452,27 @@ impl Op {
                 ty,
                 idx,
             } => format!("write::<{}>(NaN) with nan_string = \"{}\"", ty.name(), show_text(NAN_POOL[*idx as usize])),
+            Op::WFloatDigits {
+                ty,
+                bits,
+                max,
+            } => format!(
+                "write_with_options::<{}>(bits {:#x}) with max_significant_digits = {} into a buffer_size_const buffer",
+                ty.name(),
+                bits,
+                max
+            ),
+            Op::PInfCustom {
+                ty,
+                idx,
+                text,
+            } => format!(
+                "parse_with_options::<{}>(\"{}\") with inf_string = \"{}\", infinity_string = \"{}\"",
+                ty.name(),
+                show_text(PINF_TEXTS[*text as usize]),
+                show_text(PINF_POOL[*idx as usize].0),
+                show_text(PINF_POOL[*idx as usize].1)
+            ),
             Op::PNanCustom {
                 ty,
                 idx,
@@ -458,6 +533,12 @@ pub struct Arena {
     /// 0..8: where in the arena the caller's slice starts changes from call to call, so that nothing
     /// can come to depend on the alignment of the buffer the caller happens to pass
     shift: usize,
+    /// the caller's reused *input* line buffer: each parse input is copied to its start (at a slowly
+    /// changing alignment) and the parser is given exactly that sub-slice; whatever earlier, longer
+    /// records left behind it is still there
+    inbuf: Vec<u8>,
+    in_shift: usize,
+    in_count: usize,
 }
 
 /// Interpreter-only mode: hand the library a buffer whose bytes have never been initialised, so that
@@ -470,10 +551,33 @@ impl Arena {
         Arena {
             mem: vec![0u8; 8 + GUARD + CAP + GUARD],
             shift: 0,
+            inbuf: vec![0u8; 8 + 2048],
+            in_shift: 0,
+            in_count: 0,
         }
+    }
+    /// Copy a parse input into the reused input buffer; returns the range the parser is given.
+    pub fn stage_input(&mut self, text: &[u8]) -> std::ops::Range<usize> {
+        self.in_count += 1;
+        if self.in_count % 4 == 0 {
+            self.in_shift = (self.in_shift + 5) % 8;
+        }
+        let a = self.in_shift;
+        if self.inbuf.len() < a + text.len() + 16 {
+            // a longer record than ever before: the buffer grows, its old contents stay
+            self.inbuf.resize(a + text.len() + 16, b'0');
+        }
+        self.inbuf[a..a + text.len()].copy_from_slice(text);
+        a..a + text.len()
+    }
+    pub fn input(&self, r: std::ops::Range<usize>) -> &[u8] {
+        &self.inbuf[r]
     }
     /// Overwrite the reusable region with a pattern (the "previous user left this" fault).
     pub fn poison(&mut self, pat: u8) {
+        for b in self.inbuf.iter_mut() {
+            *b = pat;
+        }
         for b in &mut self.mem[GUARD..8 + GUARD + CAP] {
             *b = pat;
         }
@@ -1015,6 +1119,42 @@ fn exec_pint<T: SimInt, const F: u128>(ty: IntTy, radix: u8, text: &[u8], out: &
     let cs = show_int_result(&c);
     let ps = show_int_partial(&p);
     out.record = format!("{} {}", cs, ps);
+    // the multi-digit optimisation (off by default) must not change any result
+    {
+        const STD: u128 = lexical_core::format::STANDARD;
+        let multi = ParseIntegerOptions::builder().no_multi_digit(false).build_unchecked();
+        let mc = guarded(|| {
+            if radix == 10 {
+                lexical_core::parse_with_options::<T, STD>(text, &multi)
+            } else {
+                lexical_core::parse_with_options::<T, F>(text, &multi)
+            }
+        });
+        let mp = guarded(|| {
+            if radix == 10 {
+                lexical_core::parse_partial_with_options::<T, STD>(text, &multi)
+            } else {
+                lexical_core::parse_partial_with_options::<T, F>(text, &multi)
+            }
+        });
+        match (mc, mp) {
+            (Ok(mc), Ok(mp)) => {
+                let (mcs, mps) = (show_int_result(&mc), show_int_partial(&mp));
+                if mcs != cs || mps != ps {
+                    out.fail(
+                        "C04",
+                        format!("with multi-digit parsing enabled: {} / {}, without: {} / {}", mcs, mps, cs, ps),
+                    );
+                }
+            },
+            (a, b) => {
+                out.caught_panic = true;
+                let m = a.err().or(b.err()).unwrap_or_default();
+                out.fail("C10", format!("parser panicked with multi-digit parsing enabled: {}", m));
+                out.fail("C04", format!("parser panicked with multi-digit parsing enabled: {}", m));
+            },
+        }
+    }
     // C10: indices within the input
     if let Err(e) = &c {
         if err_index(e).map_or(false, |i| i > text.len()) {
@@ -1679,10 +1819,10 @@ fn exec_wfloat_breaks<T: SimFloat>(ty: FloatTy, bits: u64, idx: u8, arena: &mut 
     }
 }
 
-fn exec_pnan_custom<T: SimFloat>(ty: FloatTy, idx: u8, text: u8, out: &mut OpResult) {
+fn exec_pnan_custom<T: SimFloat>(ty: FloatTy, idx: u8, text: u8, input: &[u8], out: &mut OpResult) {
     const STD: u128 = lexical_core::format::STANDARD;
     let cfg: &'static [u8] = PNAN_POOL[idx as usize];
-    let input: &'static [u8] = PNAN_TEXTS[text as usize];
+    let _ = text;
     // deliberately a plain local: every call of this function builds its options at the same address
     let opts = match ParseFloatOptions::builder().nan_string(Some(cfg)).build() {
         Ok(o) => o,
@@ -1733,6 +1873,163 @@ fn exec_pnan_custom<T: SimFloat>(ty: FloatTy, idx: u8, text: u8, out: &mut OpRes
                     "NaN"
                 } else if is_inf_text {
                     "infinity"
+                } else {
+                    "rejection"
+                }
+            ),
+        ),
+    }
+    match (&c, &p) {
+        (Ok(v), Ok((w, n))) if canon_nan(ty, v.to_b()) == canon_nan(ty, w.to_b()) && *n == input.len() => {},
+        (Ok(_), _) => out.fail("C11", format!("complete {} but partial {}", show_f(&c), show_fp(&p))),
+        (Err(_), Ok((_, n))) if *n == input.len() => {
+            out.fail("C11", format!("complete {} but partial consumed everything: {}", show_f(&c), show_fp(&p)))
+        },
+        _ => {},
+    }
+}
+
+fn exec_wfloat_digits<T: SimFloat>(ty: FloatTy, bits: u64, max: u8, arena: &mut Arena, out: &mut OpResult) {
+    const STD: u128 = lexical_core::format::STANDARD;
+    let opts = match WriteFloatOptions::builder().max_significant_digits(core::num::NonZeroUsize::new(max as usize)).build() {
+        Ok(o) => o,
+        Err(e) => {
+            out.fail("HARNESS", format!("digit options rejected: {:?}", e));
+            return;
+        },
+    };
+    let bound = opts.buffer_size_const::<T, STD>();
+    if bound > CAP {
+        out.fail("HARNESS", format!("buffer_size_const {} exceeds arena", bound));
+        return;
+    }
+    let v = T::from_b(bits);
+    arena.arm(bound);
+    let r = {
+        let buf = arena.buf(bound);
+        let start = buf.as_ptr() as usize;
+        guarded(|| {
+            let w = lexical_core::write_with_options::<T, STD>(v, buf, &opts);
+            (w.as_ptr() as usize - start, w.len())
+        })
+    };
+    if let Some(off) = arena.damaged(bound) {
+        out.fail("C09", format!("byte at offset {} relative to the caller's {}-byte slice was overwritten", off, bound));
+    }
+    let (off, n) = match r {
+        Err(p) => {
+            out.caught_panic = true;
+            out.record = "panic".into();
+            // class named by a known finding: compact builds assert "no trailing zeros" on digits that a
+            // digit limit has just rounded (debug-assertion builds only)
+            let tag = if is_compact() && p.contains("rtrim_char_count") {
+                "compact-digit-limit-trailing-zero-assert"
+            } else {
+                ""
+            };
+            out.fail_tagged("C09", tag, format!("panicked with a buffer of exactly buffer_size_const = {} bytes: {}", bound, p));
+            return;
+        },
+        Ok(x) => x,
+    };
+    let got = arena.buf(bound)[..n.min(bound)].to_vec();
+    let text = String::from_utf8_lossy(&got).into_owned();
+    out.record = text.clone();
+    if off != 0 || n > bound {
+        out.fail("C09", format!("returned slice is not a prefix within the bound (offset {}, len {}, bound {})", off, n, bound));
+    }
+    if !is_ascii(&got) {
+        out.fail("C17", format!("writer emitted non-ASCII bytes {:x?}", got));
+    }
+    if ty.is_finite(bits) {
+        if !well_formed_float(&got, 10, b'e') {
+            out.fail("C14", format!("output \"{}\" is not a well-formed decimal float", text));
+        } else {
+            let nd = significant_digits(&got, 10, b'e');
+            if nd > max as usize {
+                out.fail("C14", format!("output \"{}\" has {} significant digits, max_significant_digits = {}", text, nd, max));
+            }
+            // what lexical wrote, lexical parses to what the text denotes (C08 without the value claim)
+            match (guarded(|| lexical_core::parse::<T>(&got)), ty.std_parse(&text)) {
+                (Ok(Ok(b)), Some(w)) if b.to_b() == w => {},
+                (r, w) => out.fail(
+                    "C08",
+                    format!("written \"{}\" parsed back as {:?}, the text denotes {:x?}", text, r.map(|x| x.map(|y| y.to_b())), w),
+                ),
+            }
+        }
+    }
+    // the allocating facade formats into a fresh zeroed buffer; the caller's buffer is reused and dirty
+    match guarded(|| lexical::to_string_with_options::<T, STD>(v, &opts)) {
+        Ok(st) if st.as_bytes() == &got[..] => {},
+        Ok(st) => out.fail(
+            "C17",
+            format!("lexical::to_string_with_options returned \"{}\", lexical_core wrote \"{}\" into the caller's buffer", show_text(st.as_bytes()), text),
+        ),
+        Err(m) => {
+            out.caught_panic = true;
+            out.fail("C17", format!("lexical::to_string_with_options panicked: {}", m))
+        },
+    }
+}
+
+fn exec_pinf_custom<T: SimFloat>(ty: FloatTy, idx: u8, text: u8, input: &[u8], out: &mut OpResult) {
+    const STD: u128 = lexical_core::format::STANDARD;
+    let (short, long): (&'static [u8], &'static [u8]) = PINF_POOL[idx as usize];
+    let _ = text;
+    let opts = match ParseFloatOptions::builder().inf_string(Some(short)).infinity_string(Some(long)).build() {
+        Ok(o) => o,
+        Err(e) => {
+            out.fail("C18", format!("valid infinity strings \"{}\"/\"{}\" rejected: {:?}", show_text(short), show_text(long), e));
+            return;
+        },
+    };
+    let c = guarded(|| lexical_core::parse_with_options::<T, STD>(input, &opts));
+    let p = guarded(|| lexical_core::parse_partial_with_options::<T, STD>(input, &opts));
+    let (c, p) = match (c, p) {
+        (Ok(c), Ok(p)) => (c, p),
+        (c, p) => {
+            out.caught_panic = true;
+            out.fail("C10", format!("parser panicked: {}", c.err().or(p.err()).unwrap_or_default()));
+            return;
+        },
+    };
+    out.record = format!(
+        "{} {}",
+        match &c {
+            Ok(v) => format!("Ok({:#x})", canon_nan(ty, v.to_b())),
+            Err(e) => format!("Err({:?})", e),
+        },
+        match &p {
+            Ok((v, n)) => format!("Ok({:#x},{})", canon_nan(ty, v.to_b()), n),
+            Err(e) => format!("Err({:?})", e),
+        }
+    );
+    match &p {
+        Ok((_, n)) if *n > input.len() => out.fail("C10", format!("partial parse consumed {} > input length {}", n, input.len())),
+        _ => {},
+    }
+    let (neg, body) = match input.first() {
+        Some(b'-') => (true, &input[1..]),
+        Some(b'+') => (false, &input[1..]),
+        _ => (false, input),
+    };
+    let is_inf_text = body.eq_ignore_ascii_case(short) || body.eq_ignore_ascii_case(long);
+    let is_nan_text = body.eq_ignore_ascii_case(b"nan");
+    match &c {
+        Ok(v) if is_inf_text && ty.is_inf(v.to_b()) && ty.sign(v.to_b()) == neg => {},
+        Ok(v) if is_nan_text && ty.is_nan(v.to_b()) => {},
+        Err(_) if !is_inf_text && !is_nan_text => {},
+        r => out.fail(
+            "C15",
+            format!(
+                "with inf_string \"{}\" / infinity_string \"{}\", input \"{}\" gave {} (expected {})",
+                show_text(short),
+                show_text(long),
+                show_text(input),
+                show_f(r),
+                if is_inf_text {
+                    "a correctly signed infinity"
                 } else {
                     "rejection"
                 }
@@ -1840,12 +2137,20 @@ pub fn exec_mode(op: &Op, arena: &mut Arena, lite: bool) -> OpResult {
             ty,
             radix,
             text,
-        } => int_dispatch!(*ty, T => radix_dispatch!(*radix, F => exec_pint::<T, F>(*ty, *radix, text, &mut out))),
+        } => {
+            let r = arena.stage_input(text);
+            let input = arena.input(r);
+            int_dispatch!(*ty, T => radix_dispatch!(*radix, F => exec_pint::<T, F>(*ty, *radix, input, &mut out)))
+        },
         Op::PFloat {
             ty,
             text,
             expect,
-        } => float_dispatch!(*ty, T => exec_pfloat::<T>(*ty, text, *expect, lite, &mut out)),
+        } => {
+            let r = arena.stage_input(text);
+            let input = arena.input(r);
+            float_dispatch!(*ty, T => exec_pfloat::<T>(*ty, input, *expect, lite, &mut out))
+        },
         Op::WFloat {
             ty,
             bits,
@@ -1863,7 +2168,11 @@ pub fn exec_mode(op: &Op, arena: &mut Arena, lite: bool) -> OpResult {
             radix,
             text,
             expect,
-        } => float_dispatch!(*ty, T => float_radix_dispatch!(*radix, F => exec_pfloat_r::<T, F>(*radix, text, *expect, &mut out))),
+        } => {
+            let r = arena.stage_input(text);
+            let input = arena.input(r);
+            float_dispatch!(*ty, T => float_radix_dispatch!(*radix, F => exec_pfloat_r::<T, F>(*radix, input, *expect, &mut out)))
+        },
         #[cfg(not(any(feature = "pow2", feature = "radix")))]
         Op::WFloatR {
             ..
@@ -1884,11 +2193,29 @@ pub fn exec_mode(op: &Op, arena: &mut Arena, lite: bool) -> OpResult {
             bits,
             idx,
         } => float_dispatch!(*ty, T => exec_wfloat_breaks::<T>(*ty, *bits, *idx, arena, &mut out)),
+        Op::WFloatDigits {
+            ty,
+            bits,
+            max,
+        } => float_dispatch!(*ty, T => exec_wfloat_digits::<T>(*ty, *bits, *max, arena, &mut out)),
         Op::PNanCustom {
             ty,
             idx,
             text,
-        } => float_dispatch!(*ty, T => exec_pnan_custom::<T>(*ty, *idx, *text, &mut out)),
+        } => {
+            let r = arena.stage_input(PNAN_TEXTS[*text as usize]);
+            let input = arena.input(r);
+            float_dispatch!(*ty, T => exec_pnan_custom::<T>(*ty, *idx, *text, input, &mut out))
+        },
+        Op::PInfCustom {
+            ty,
+            idx,
+            text,
+        } => {
+            let r = arena.stage_input(PINF_TEXTS[*text as usize]);
+            let input = arena.input(r);
+            float_dispatch!(*ty, T => exec_pinf_custom::<T>(*ty, *idx, *text, input, &mut out))
+        },
     }
     out
 }
